@@ -19,8 +19,6 @@ use vstd::std_specs::cmp::OrdSpec;
 //@map /&Node\b/ => &VxNodeH
 //@map /&Psbt\b/ => &VxPsbt
 //@map /ScriptBuf::from\(wscript\.0\.clone\(\)\)/ => vx_script_from(wscript)
-//@map /psbt\.inputs\[(\w+)\]\.witness_utxo\.as_ref\(\)\.vx_expect\(\)\.value/ => vx_psbt_input_amount(psbt, \1)
-//@map /psbt\.outputs\[0\]\.witness_script\.as_ref\(\)\.vx_expect\(\)/ => vx_psbt_output0_witscript(psbt)
 //@map /(?s)Ok\(Box::new\(msgs::SignTxReply \{\s*signature: BitcoinSignature \{\s*signature: Signature\(sig\.serialize_compact\(\)\),\s*sighash: EcdsaSighashType::All as u8,\s*\},\s*\}\)\)/ => Ok(vx_reply_sig_all(sig))
 //@map /(?s)Ok\(Box::new\(msgs::SignTxReply \{\s*signature: BitcoinSignature \{\s*signature: Signature\(sig\.sig\.serialize_compact\(\)\),\s*sighash: sig\.typ as u8,\s*\},\s*\}\)\)/ => Ok(vx_reply_typed_sig(sig))
 //@map /PublicKey::from_slice\(&remote_per_commitment_point\.0\)/ => vx_pubkey_from_wire(remote_per_commitment_point)
@@ -34,7 +32,11 @@ verus! {
 #[verifier::external_body] pub struct VxChanRest { _p: u8 }
 pub struct VxChan { pub rest: VxChanRest }
 #[verifier::external_body] pub struct VxNodeH { _p: u8 }
-#[verifier::external_body] pub struct VxPsbt { _p: u8 }
+// bitcoin::Psbt as far as these functions read it: per-input witness UTXO and witness script, per-output witness script
+#[verifier::external_body] pub struct VxPsbtRest { _p: u8 }
+pub struct VxPsbtInput { pub witness_utxo: Option<TxOut>, pub witness_script: Option<ScriptBuf>, pub rest: VxPsbtRest }
+pub struct VxPsbtOutput { pub witness_script: Option<ScriptBuf>, pub rest: VxPsbtRest }
+pub struct VxPsbt { pub inputs: Vec<VxPsbtInput>, pub outputs: Vec<VxPsbtOutput>, pub rest: VxPsbtRest }
 #[verifier::external_body] pub struct VxPath { _p: u8 }
 #[verifier::external_body] pub struct Octets { _p: u8 }
 #[verifier::external_body] pub struct TypedSignature { _p: u8 }
@@ -45,17 +47,12 @@ impl Octets { pub uninterp spec fn bytes(&self) -> Seq<u8>; }
 pub uninterp spec fn script_of_bytes(b: Seq<u8>) -> ScriptBuf;
 pub uninterp spec fn key_of_wire(k: PubKey) -> PublicKey;
 pub uninterp spec fn secret_of_wire(k: DisclosedSecret) -> SecretKey;
-pub uninterp spec fn psbt_input_value(p: VxPsbt, input: int) -> u64;            // psbt.inputs[input].witness_utxo.value, in satoshi
+pub open spec fn psbt_input_value(p: VxPsbt, input: int) -> u64 { amount_sat(p.inputs@[input].witness_utxo->Some_0.value) }   // psbt.inputs[input].witness_utxo.value, in satoshi
 pub uninterp spec fn psbt_output_paths(p: VxPsbt) -> Seq<VxPath>;               // extract_psbt_output_paths: the derivation path recorded for every output
-pub uninterp spec fn psbt_output0_witscript(p: VxPsbt) -> ScriptBuf;
+pub open spec fn psbt_output0_witscript(p: VxPsbt) -> ScriptBuf { p.outputs@[0].witness_script->Some_0 }
 #[verifier::external_body] pub fn vx_script_from(b: &Octets) -> (r: ScriptBuf) ensures r == script_of_bytes(b.bytes()) { unimplemented!() }
 #[verifier::external_body] pub fn vx_pubkey_from_wire(k: &PubKey) -> (r: Result<PublicKey, VxBadKey>) ensures r.is_ok() ==> r->Ok_0 == key_of_wire(*k) { unimplemented!() }
 #[verifier::external_body] pub fn vx_secret_from_wire(k: &DisclosedSecret) -> (r: Result<SecretKey, VxBadKey>) ensures r.is_ok() ==> r->Ok_0 == secret_of_wire(*k) { unimplemented!() }
-pub struct VxAmount { pub sat: u64 }
-impl VxAmount { pub fn to_sat(&self) -> (r: u64) ensures r == self.sat { self.sat } }
-// (manual rewrite: the value of the witness UTXO of input `input`; aborts when the index is out of range or the input has none)
-#[verifier::external_body] pub fn vx_psbt_input_amount(p: &VxPsbt, input: usize) -> (r: VxAmount) ensures r.sat == psbt_input_value(*p, input as int) { unimplemented!() }
-#[verifier::external_body] pub fn vx_psbt_output0_witscript(p: &VxPsbt) -> (r: &ScriptBuf) ensures *r == psbt_output0_witscript(*p) { unimplemented!() }
 #[verifier::external_body] pub fn extract_psbt_output_paths(p: &VxPsbt) -> (r: Vec<VxPath>) ensures r@ == psbt_output_paths(*p) { unimplemented!() }
 pub uninterp spec fn reply_sig_all(sig: Signature) -> VxReply;
 pub uninterp spec fn reply_typed_sig(sig: TypedSignature) -> VxReply;
@@ -99,78 +96,88 @@ pub open spec fn holder_htlc_done(node: VxNodeH, id: ChannelId, tx: Transaction,
 }
 impl VxNodeH {
     #[verifier::external_body]
-    pub fn vx_with_channel_delayed(&self, channel_id: &ChannelId, tx: &Transaction, input: usize, commitment_number: u64, redeemscript: &ScriptBuf, htlc_amount: &VxAmount, wallet_paths: &Vec<VxPath>) -> (r: Result<Signature, Status>)
+    pub fn vx_with_channel_delayed(&self, channel_id: &ChannelId, tx: &Transaction, input: usize, commitment_number: u64, redeemscript: &ScriptBuf, htlc_amount: &Amount, wallet_paths: &Vec<VxPath>) -> (r: Result<Signature, Status>)
         requires wallet_paths@.len() > 0,
-        ensures r.is_ok() ==> delayed_done(*self, *channel_id, *tx, input, commitment_number, *redeemscript, htlc_amount.sat, wallet_paths@[0], r) { unimplemented!() }
+        ensures r.is_ok() ==> delayed_done(*self, *channel_id, *tx, input, commitment_number, *redeemscript, amount_sat(*htlc_amount), wallet_paths@[0], r) { unimplemented!() }
     #[verifier::external_body]
-    pub fn vx_with_channel_cp_htlc(&self, channel_id: &ChannelId, tx: &Transaction, input: usize, remote_per_commitment_point: &PublicKey, redeemscript: &ScriptBuf, htlc_amount: &VxAmount, wallet_paths: &Vec<VxPath>) -> (r: Result<Signature, Status>)
+    pub fn vx_with_channel_cp_htlc(&self, channel_id: &ChannelId, tx: &Transaction, input: usize, remote_per_commitment_point: &PublicKey, redeemscript: &ScriptBuf, htlc_amount: &Amount, wallet_paths: &Vec<VxPath>) -> (r: Result<Signature, Status>)
         requires wallet_paths@.len() > 0,
-        ensures r.is_ok() ==> cp_htlc_done(*self, *channel_id, *tx, input, *remote_per_commitment_point, *redeemscript, htlc_amount.sat, wallet_paths@[0], r) { unimplemented!() }
+        ensures r.is_ok() ==> cp_htlc_done(*self, *channel_id, *tx, input, *remote_per_commitment_point, *redeemscript, amount_sat(*htlc_amount), wallet_paths@[0], r) { unimplemented!() }
     #[verifier::external_body]
-    pub fn vx_with_channel_justice(&self, channel_id: &ChannelId, tx: &Transaction, input: usize, revocation_secret: &SecretKey, redeemscript: &ScriptBuf, htlc_amount: &VxAmount, wallet_paths: &Vec<VxPath>) -> (r: Result<Signature, Status>)
+    pub fn vx_with_channel_justice(&self, channel_id: &ChannelId, tx: &Transaction, input: usize, revocation_secret: &SecretKey, redeemscript: &ScriptBuf, htlc_amount: &Amount, wallet_paths: &Vec<VxPath>) -> (r: Result<Signature, Status>)
         requires wallet_paths@.len() > 0,
-        ensures r.is_ok() ==> justice_done(*self, *channel_id, *tx, input, *revocation_secret, *redeemscript, htlc_amount.sat, wallet_paths@[0], r) { unimplemented!() }
+        ensures r.is_ok() ==> justice_done(*self, *channel_id, *tx, input, *revocation_secret, *redeemscript, amount_sat(*htlc_amount), wallet_paths@[0], r) { unimplemented!() }
     #[verifier::external_body]
-    pub fn vx_with_channel_holder_htlc(&self, channel_id: &ChannelId, tx: &Transaction, commitment_number: u64, redeemscript: &ScriptBuf, htlc_amount: &VxAmount, output_witscript: &ScriptBuf) -> (r: Result<TypedSignature, Status>)
-        ensures r.is_ok() ==> holder_htlc_done(*self, *channel_id, *tx, commitment_number, *redeemscript, htlc_amount.sat, *output_witscript, r) { unimplemented!() }
+    pub fn vx_with_channel_holder_htlc(&self, channel_id: &ChannelId, tx: &Transaction, commitment_number: u64, redeemscript: &ScriptBuf, htlc_amount: &Amount, output_witscript: &ScriptBuf) -> (r: Result<TypedSignature, Status>)
+        ensures r.is_ok() ==> holder_htlc_done(*self, *channel_id, *tx, commitment_number, *redeemscript, amount_sat(*htlc_amount), *output_witscript, r) { unimplemented!() }
 }
 
 // ------------------------------------------------ sign_delayed_payment_to_us
 //@fn vls-protocol-signer/src/handler.rs :: - :: sign_delayed_payment_to_us closure=1 as=delayed_closure props=C09
-//@sig fn delayed_closure(chan: &mut VxChan, tx: &Transaction, input: usize, commitment_number: u64, redeemscript: &ScriptBuf, htlc_amount: &VxAmount, wallet_paths: &Vec<VxPath>) -> (r: Result<Signature, Status>)
+//@sig fn delayed_closure(chan: &mut VxChan, tx: &Transaction, input: usize, commitment_number: u64, redeemscript: &ScriptBuf, htlc_amount: &Amount, wallet_paths: &Vec<VxPath>) -> (r: Result<Signature, Status>)
     requires wallet_paths@.len() > 0,
-    ensures chan_signed_delayed_sweep(old(chan)@, *tx, input, commitment_number, *redeemscript, htlc_amount.sat, wallet_paths@[0], r, final(chan)@),   //[C09.handler.delayed-closure-one-call]
+    ensures chan_signed_delayed_sweep(old(chan)@, *tx, input, commitment_number, *redeemscript, amount_sat(*htlc_amount), wallet_paths@[0], r, final(chan)@),   //[C09.handler.delayed-closure-one-call]
 //@end
 //@fn vls-protocol-signer/src/handler.rs :: - :: sign_delayed_payment_to_us props=C09
     requires psbt_output_paths(*psbt).len() > 0,        // a sweep has an output (the code indexes wallet_paths[0]: abort otherwise)
+        (input as int) < psbt.inputs@.len(),             // the code indexes psbt.inputs[input]: abort otherwise
     ensures
         r.is_ok() ==> exists|sig: Signature| #[trigger] delayed_done(*node, *channel_id, *tx, input as usize, commitment_number, script_of_bytes(wscript.bytes()),
                 psbt_input_value(*psbt, input as int), psbt_output_paths(*psbt)[0], Ok(sig))                     //[C09.handler.delayed-sweep-request-as-sent] [C09.handler.delayed-amount-is-the-utxo-of-the-signed-input]
             && r->Ok_0 == reply_sig_all(sig),
 //@sub /(?s)node\.with_channel\(channel_id, \|chan\| \{.*?\n\s*\}\)\?/ => node.vx_with_channel_delayed(channel_id, &tx, input, commitment_number, &redeemscript, &htlc_amount, &wallet_paths)?
+//@proof before /let sig = /
+    proof { assert(amount_sat(htlc_amount) == psbt_input_value(*psbt, input as int)); }
 //@end
 
 // ------------------------------------------------ sign_remote_htlc_to_us
 //@fn vls-protocol-signer/src/handler.rs :: - :: sign_remote_htlc_to_us closure=1 as=cp_htlc_closure props=C09
-//@sig fn cp_htlc_closure(chan: &mut VxChan, tx: &Transaction, input: usize, remote_per_commitment_point: PublicKey, redeemscript: &ScriptBuf, htlc_amount: &VxAmount, wallet_paths: &Vec<VxPath>) -> (r: Result<Signature, Status>)
+//@sig fn cp_htlc_closure(chan: &mut VxChan, tx: &Transaction, input: usize, remote_per_commitment_point: PublicKey, redeemscript: &ScriptBuf, htlc_amount: &Amount, wallet_paths: &Vec<VxPath>) -> (r: Result<Signature, Status>)
     requires wallet_paths@.len() > 0,
-    ensures chan_signed_cp_htlc_sweep(old(chan)@, *tx, input, remote_per_commitment_point, *redeemscript, htlc_amount.sat, wallet_paths@[0], r, final(chan)@),   //[C09.handler.cp-htlc-closure-one-call]
+    ensures chan_signed_cp_htlc_sweep(old(chan)@, *tx, input, remote_per_commitment_point, *redeemscript, amount_sat(*htlc_amount), wallet_paths@[0], r, final(chan)@),   //[C09.handler.cp-htlc-closure-one-call]
 //@end
 //@fn vls-protocol-signer/src/handler.rs :: - :: sign_remote_htlc_to_us props=C09
-    requires psbt_output_paths(*psbt).len() > 0,
+    requires psbt_output_paths(*psbt).len() > 0, (input as int) < psbt.inputs@.len(),
     ensures
         r.is_ok() ==> exists|sig: Signature| #[trigger] cp_htlc_done(*node, *channel_id, *tx, input as usize, key_of_wire(*remote_per_commitment_point), script_of_bytes(wscript.bytes()),
                 psbt_input_value(*psbt, input as int), psbt_output_paths(*psbt)[0], Ok(sig))                     //[C09.handler.cp-htlc-sweep-request-as-sent] [C09.handler.cp-htlc-amount-is-the-utxo-of-the-signed-input]
             && r->Ok_0 == reply_sig_all(sig),
 //@sub /(?s)node\.with_channel\(channel_id, \|chan\| \{.*?\n\s*\}\)\?/ => node.vx_with_channel_cp_htlc(channel_id, &tx, input, &remote_per_commitment_point, &redeemscript, &htlc_amount, &wallet_paths)?
+//@proof before /let sig = /
+    proof { assert(amount_sat(htlc_amount) == psbt_input_value(*psbt, input as int)); }
 //@end
 
 // ------------------------------------------------ sign_penalty_to_us
 //@fn vls-protocol-signer/src/handler.rs :: - :: sign_penalty_to_us closure=1 as=justice_closure props=C09
-//@sig fn justice_closure(chan: &mut VxChan, tx: &Transaction, input: usize, revocation_secret: SecretKey, redeemscript: &ScriptBuf, htlc_amount: &VxAmount, wallet_paths: &Vec<VxPath>) -> (r: Result<Signature, Status>)
+//@sig fn justice_closure(chan: &mut VxChan, tx: &Transaction, input: usize, revocation_secret: SecretKey, redeemscript: &ScriptBuf, htlc_amount: &Amount, wallet_paths: &Vec<VxPath>) -> (r: Result<Signature, Status>)
     requires wallet_paths@.len() > 0,
-    ensures chan_signed_justice_sweep(old(chan)@, *tx, input, revocation_secret, *redeemscript, htlc_amount.sat, wallet_paths@[0], r, final(chan)@),   //[C09.handler.justice-closure-one-call]
+    ensures chan_signed_justice_sweep(old(chan)@, *tx, input, revocation_secret, *redeemscript, amount_sat(*htlc_amount), wallet_paths@[0], r, final(chan)@),   //[C09.handler.justice-closure-one-call]
 //@end
 //@fn vls-protocol-signer/src/handler.rs :: - :: sign_penalty_to_us props=C09
-    requires psbt_output_paths(*psbt).len() > 0,
+    requires psbt_output_paths(*psbt).len() > 0, (input as int) < psbt.inputs@.len(),
     ensures
         r.is_ok() ==> exists|sig: Signature| #[trigger] justice_done(*node, *channel_id, *tx, input as usize, secret_of_wire(*revocation_secret), script_of_bytes(wscript.bytes()),
                 psbt_input_value(*psbt, input as int), psbt_output_paths(*psbt)[0], Ok(sig))                     //[C09.handler.justice-sweep-request-as-sent] [C09.handler.justice-amount-is-the-utxo-of-the-signed-input]
             && r->Ok_0 == reply_sig_all(sig),
 //@sub /(?s)node\.with_channel\(&channel_id, \|chan\| \{.*?\n\s*\}\)\?/ => node.vx_with_channel_justice(channel_id, &tx, input, &revocation_secret, &redeemscript, &htlc_amount, &wallet_paths)?
+//@proof before /let sig = /
+    proof { assert(amount_sat(htlc_amount) == psbt_input_value(*psbt, input as int)); }
 //@end
 
 // ------------------------------------------------ sign_local_htlc_tx
 //@fn vls-protocol-signer/src/handler.rs :: - :: sign_local_htlc_tx closure=1 as=holder_htlc_closure props=C09
-//@sig fn holder_htlc_closure(chan: &mut VxChan, tx: &Transaction, commitment_number: u64, redeemscript: &ScriptBuf, htlc_amount: &VxAmount, output_witscript: &ScriptBuf) -> (r: Result<TypedSignature, Status>)
-    ensures chan_signed_holder_htlc_tx(old(chan)@, *tx, commitment_number, *redeemscript, htlc_amount.sat, *output_witscript, r, final(chan)@),   //[C09.handler.holder-htlc-closure-one-call]
+//@sig fn holder_htlc_closure(chan: &mut VxChan, tx: &Transaction, commitment_number: u64, redeemscript: &ScriptBuf, htlc_amount: &Amount, output_witscript: &ScriptBuf) -> (r: Result<TypedSignature, Status>)
+    ensures chan_signed_holder_htlc_tx(old(chan)@, *tx, commitment_number, *redeemscript, amount_sat(*htlc_amount), *output_witscript, r, final(chan)@),   //[C09.handler.holder-htlc-closure-one-call]
 //@end
 //@fn vls-protocol-signer/src/handler.rs :: - :: sign_local_htlc_tx props=C09
+    requires (input as int) < psbt.inputs@.len(), psbt.outputs@.len() > 0,      // indexed by the code: abort otherwise
     ensures
         r.is_ok() ==> exists|sig: TypedSignature| #[trigger] holder_htlc_done(*node, *channel_id, *tx, commitment_number, script_of_bytes(wscript.bytes()),
                 psbt_input_value(*psbt, input as int), psbt_output0_witscript(*psbt), Ok(sig))                   //[C09.handler.holder-htlc-request-as-sent]
             && r->Ok_0 == reply_typed_sig(sig),
 //@sub /(?s)node\.with_channel\(channel_id, \|chan\| \{.*?\n\s*\}\)\?/ => node.vx_with_channel_holder_htlc(channel_id, &tx, commitment_number, &redeemscript, &htlc_amount, output_witscript)?
+//@proof before /let sig = /
+    proof { assert(amount_sat(htlc_amount) == psbt_input_value(*psbt, input as int)); assert(*output_witscript == psbt_output0_witscript(*psbt)); }
 //@end
 
 } // verus!
